@@ -6,7 +6,7 @@ import common, gen, pool, drv
 THEOREMS = ["equiv_norm3_sound", "symExec_conc", "norm3_sound", "Norm.disjoint_sound", "Norm.keysDiffer_sound", "schedule_indep",
             "Spec.actEff_comm", "Spec.checked_schedules_agree", "Spec.termOf_sim", "Spec.runSchedule_sim",
             "Spec.evalSpec_denote", "Spec.spec_schedule_independent", "Spec.scheduleMatches_sound",
-            "Spec.spec_denotes_block_under_every_schedule"]
+            "Spec.spec_denotes_block_under_every_schedule", "Spec.prune_evalSpec", "Spec.spec_denotes_block_pruned", "Spec.termOf_mono"]
 LOADS = ("MLOAD", "SLOAD", "KECCAK256", "SHA3")
 
 
@@ -101,7 +101,7 @@ def collect(tier, sd, rng, greedy=False, extra=()):
 def run(tier):
     sd = common.seed()
     rng = random.Random(sd * 8191 + 15)
-    po = common.proof_obligations("GasolVerif.Proofs.Schedule,GasolVerif.Proofs.SpecSim", THEOREMS)
+    po = common.proof_obligations("GasolVerif.Proofs.Schedule,GasolVerif.Proofs.SpecSim,GasolVerif.Proofs.PruneSound", THEOREMS)
     violations = [{"kind": "broken-proof-obligation", "what": b, "no_failing_input": True, "input": b} for b in po["broken"]]
     res = collect(tier, sd, rng)
     c = Counter()
@@ -136,6 +136,13 @@ def run(tier):
         key = o.split(":")[0]
         c["verdict:" + key] += 1
         if o.startswith("ok"):
+            # link back to the emitted specification (prune_evalSpec / spec_denotes_block_pruned): does it evaluate under the full schedule?
+            if ":emitted-evaluates" in o:
+                c["emitted-specification-evaluates"] += 1
+            elif ":pruned-only" in o:
+                c["only-the-pruned-specification-evaluates"] += 1
+            if ":removed=" in o and not o.endswith(":removed=0"):
+                c["specifications-with-removed-loads"] += 1
             if len(Ls) > 1 and len(samples) < 4:
                 samples.append({"block": " ".join(e["plain"]), "options": t["opts"], "schedules_checked": Ls[:3], "deps": e["deps"]})
         elif o.startswith("conflict"):
